@@ -38,6 +38,10 @@ func genC06(g gen.G) C06Case {
 		// a world in which references resolve: reference candidates exist at most value positions
 		return C06Case{World: g.RefWorld(1, false)}
 	}
+	if g.Chance(15) {
+		// value-centred world: nested values with literal and non-literal keys, resolving references, functions
+		return C06Case{World: g.ValueWorld(gen.CfgOpts{Typed: g.Bool(), Layout: g.Chance(30), HalfTyped: 6})}
+	}
 	o := gen.WorldOpts{
 		Schema:   gen.SchemaOpts{MaxDepth: 2},
 		Cfg:      gen.CfgOpts{Violations: 6, Layout: true, HalfTyped: 10},
